@@ -67,6 +67,8 @@ pub struct Ctx {
     pub light: bool,
     /// signatures of the small states visited (size, heap->slot permutation, priority ranks)
     pub sigs: Vec<u64>,
+    /// this step wrote a priority through an iter_mut reference after the iterator was gone
+    pub late_write: bool,
 }
 
 impl Ctx {
@@ -85,6 +87,7 @@ impl Ctx {
             snapshot: true,
             light: false,
             sigs: Vec::new(),
+            late_write: false,
         }
     }
     pub fn fail(&mut self, props: u32, class: &'static str, msg: String) {
@@ -141,7 +144,7 @@ pub fn step_tags(st: &Step) -> u32 {
         Fam::PopIf | Fam::Retain | Fam::IterMut | Fam::IterMutLeak => C08,
         Fam::Drain | Fam::DrainLeak | Fam::Clear => C16,
         Fam::Extend | Fam::Append | Fam::FromVec | Fam::FromIter | Fam::Convert => C07,
-        Fam::CloneSwap | Fam::EqSelf => C14,
+        Fam::CloneSwap | Fam::EqSelf | Fam::CloneFrom => C14,
         Fam::Serde => C15,
         Fam::Reserve | Fam::TryReserve | Fam::Shrink => C17,
         Fam::Iter | Fam::Adapt | Fam::IntoVec => C13,
@@ -169,14 +172,20 @@ fn mkpairs(v: &[P3]) -> Vec<(Key, Prio)> {
 // ------------------------------------------------------------------------------------------
 // iterator programs
 
-pub trait ProgIt {
+pub trait ProgIt: Sized {
     type T;
     fn nx(&mut self) -> Option<Self::T>;
     /// None = this iterator cannot be advanced from the back
     fn nb(&mut self) -> Option<Option<Self::T>>;
+    fn nth_f(&mut self, k: usize) -> Option<Self::T>;
+    fn nth_b(&mut self, k: usize) -> Option<Option<Self::T>>;
     /// None = this iterator does not declare an exact size
     fn ln(&self) -> Option<usize>;
     fn sh(&self) -> (usize, Option<usize>);
+    /// internal iteration; `f` runs inside the closure handed to for_each
+    fn rest_each(self, f: &mut dyn FnMut(&mut Self::T)) -> Vec<Self::T>;
+    fn rest_count(self) -> usize;
+    fn rest_last(self) -> Option<Self::T>;
 }
 pub struct Fwd<I>(pub I);
 impl<I: Iterator> ProgIt for Fwd<I> {
@@ -187,11 +196,31 @@ impl<I: Iterator> ProgIt for Fwd<I> {
     fn nb(&mut self) -> Option<Option<I::Item>> {
         None
     }
+    fn nth_f(&mut self, k: usize) -> Option<I::Item> {
+        self.0.nth(k)
+    }
+    fn nth_b(&mut self, _k: usize) -> Option<Option<I::Item>> {
+        None
+    }
     fn ln(&self) -> Option<usize> {
         None
     }
     fn sh(&self) -> (usize, Option<usize>) {
         self.0.size_hint()
+    }
+    fn rest_each(self, f: &mut dyn FnMut(&mut I::Item)) -> Vec<I::Item> {
+        let mut v = Vec::new();
+        self.0.for_each(|mut x| {
+            f(&mut x);
+            v.push(x)
+        });
+        v
+    }
+    fn rest_count(self) -> usize {
+        self.0.count()
+    }
+    fn rest_last(self) -> Option<I::Item> {
+        self.0.last()
     }
 }
 pub struct Dbl<I>(pub I);
@@ -203,28 +232,70 @@ impl<I: DoubleEndedIterator + ExactSizeIterator> ProgIt for Dbl<I> {
     fn nb(&mut self) -> Option<Option<I::Item>> {
         Some(self.0.next_back())
     }
+    fn nth_f(&mut self, k: usize) -> Option<I::Item> {
+        self.0.nth(k)
+    }
+    fn nth_b(&mut self, k: usize) -> Option<Option<I::Item>> {
+        Some(self.0.nth_back(k))
+    }
     fn ln(&self) -> Option<usize> {
         Some(self.0.len())
     }
     fn sh(&self) -> (usize, Option<usize>) {
         self.0.size_hint()
     }
+    fn rest_each(self, f: &mut dyn FnMut(&mut I::Item)) -> Vec<I::Item> {
+        let mut v = Vec::new();
+        self.0.for_each(|mut x| {
+            f(&mut x);
+            v.push(x)
+        });
+        v
+    }
+    fn rest_count(self) -> usize {
+        self.0.count()
+    }
+    fn rest_last(self) -> Option<I::Item> {
+        self.0.last()
+    }
 }
 
 pub struct ProgOut<T> {
     /// (from_back, element) in the order yielded
     pub yielded: Vec<(bool, T)>,
+    /// for each yield: how many elements the iterator consumed silently just before it, at the
+    /// same end (nth / nth_back / last)
+    pub skipped: Vec<usize>,
+    /// everything the iterator has consumed (yielded or skipped)
+    pub consumed: usize,
     pub problems: Vec<(&'static str, String)>,
 }
 
-/// Run a program of next / next_back / len / size_hint calls on an iterator that should yield
-/// `total` elements in all; checks the size reports before every call and None-forever after
-/// exhaustion. Yielded elements are kept alive by the caller.
-pub fn run_prog<P: ProgIt>(it: &mut P, prog: &[ItOp], total: usize) -> ProgOut<P::T> {
-    let mut out = ProgOut { yielded: Vec::new(), problems: Vec::new() };
+/// Run a program of next / next_back / nth / nth_back / len / size_hint calls (optionally ended
+/// by for_each / count / last) on an iterator that should yield `total` elements in all.
+/// Size reports are checked before every call, None-forever after exhaustion, and — when the
+/// iterator's own forward order `reference` is known (ids obtained by a plain next() pass over an
+/// identical iterator) — every yield must be the element that order puts at that position, from
+/// either end. Returns the iterator unless a terminal operation consumed it.
+pub fn run_prog<P: ProgIt>(mut it: P, prog: &[ItOp], total: usize, reference: Option<&[u32]>, id_of: &dyn Fn(&P::T) -> u32, on_yield: &mut dyn FnMut(&mut P::T)) -> (ProgOut<P::T>, Option<P>) {
+    let mut out = ProgOut { yielded: Vec::new(), skipped: Vec::new(), consumed: 0, problems: Vec::new() };
     let mut exhausted = false;
+    let (mut front, mut back) = (0usize, total);
+    let reference = reference.filter(|r| r.len() == total);
+    macro_rules! positional {
+        ($i:expr, $x:expr, $pos:expr) => {
+            if let Some(r) = reference {
+                if let Some(want) = r.get($pos) {
+                    let got = id_of($x);
+                    if got != *want {
+                        out.problems.push(("wrong_position", format!("op {}: yielded item {} where the iterator's own order (a plain next() pass) has item {} at position {}", $i, got, want, $pos)));
+                    }
+                }
+            }
+        };
+    }
     for (i, op) in prog.iter().enumerate() {
-        let rem = total.saturating_sub(out.yielded.len());
+        let rem = back.saturating_sub(front);
         // size reports are checked before every call for iterators that declare an exact size
         if let Some(l) = it.ln() {
             if l != rem {
@@ -240,39 +311,104 @@ pub fn run_prog<P: ProgIt>(it: &mut P, prog: &[ItOp], total: usize) -> ProgOut<P
                 out.problems.push(("size_hint_bounds", format!("op {}: size_hint()=({},{:?}) excludes the {} elements that remain", i, lo, hi, rem)));
             }
         }
-        match op {
+        match *op {
             ItOp::Len | ItOp::SizeHint => {}
-            ItOp::Next | ItOp::NextBack => {
-                let back = *op == ItOp::NextBack;
-                let r = if back {
-                    match it.nb() {
+            ItOp::Next | ItOp::NextBack | ItOp::Nth(_) | ItOp::NthBack(_) => {
+                let k = match *op {
+                    ItOp::Nth(k) | ItOp::NthBack(k) => k,
+                    _ => 0,
+                };
+                let want_back = matches!(*op, ItOp::NextBack | ItOp::NthBack(_));
+                let plain = matches!(*op, ItOp::Next | ItOp::NextBack);
+                let (from_back, r) = if want_back {
+                    match if plain { it.nb() } else { it.nth_b(k) } {
                         Some(r) => (true, r),
-                        None => (false, it.nx()),
+                        None => (false, if plain { it.nx() } else { it.nth_f(k) }),
                     }
                 } else {
-                    (false, it.nx())
+                    (false, if plain { it.nx() } else { it.nth_f(k) })
                 };
-                match r.1 {
-                    Some(x) => {
+                match r {
+                    Some(mut x) => {
+                        // the client's use of the element, while the iterator is alive
+                        on_yield(&mut x);
                         if exhausted {
                             out.problems.push(("yield_after_none", format!("op {}: yielded an element after having returned None", i)));
                         }
-                        if out.yielded.len() >= total {
-                            out.problems.push(("too_many", format!("op {}: yielded more than the {} stored elements", i, total)));
+                        if k >= rem {
+                            out.problems.push(("too_many", format!("op {} ({:?}): yielded an element although only {} remained", i, op, rem)));
+                        } else if from_back {
+                            positional!(i, &x, back - 1 - k);
+                        } else {
+                            positional!(i, &x, front + k);
                         }
-                        out.yielded.push((r.0, x));
+                        let step = (k + 1).min(rem.max(1));
+                        if from_back {
+                            back = back.saturating_sub(step).max(front);
+                        } else {
+                            front = (front + step).min(back.max(front));
+                        }
+                        out.consumed += step;
+                        out.yielded.push((from_back, x));
+                        out.skipped.push(k.min(rem.saturating_sub(1)));
                     }
                     None => {
-                        if rem > 0 {
-                            out.problems.push(("early_none", format!("op {}: returned None with {} elements still to come", i, rem)));
+                        if k < rem {
+                            out.problems.push(("early_none", format!("op {} ({:?}): returned None with {} elements still to come", i, op, rem)));
                         }
+                        // a None from nth(k >= rem) has consumed everything that was left
+                        out.consumed += rem;
+                        front = back;
                         exhausted = true;
                     }
                 }
             }
+            ItOp::RestForEach => {
+                let v = it.rest_each(on_yield);
+                if v.len() != rem {
+                    out.problems.push((if v.len() > rem { "too_many" } else { "early_none" }, format!("op {}: for_each visited {} elements, {} remained", i, v.len(), rem)));
+                }
+                for x in v {
+                    positional!(i, &x, front);
+                    front += 1;
+                    out.consumed += 1;
+                    out.yielded.push((false, x));
+                    out.skipped.push(0);
+                }
+                return (out, None);
+            }
+            ItOp::RestCount => {
+                let c = it.rest_count();
+                if c != rem {
+                    out.problems.push((if c > rem { "too_many" } else { "early_none" }, format!("op {}: count() = {} but {} elements remained", i, c, rem)));
+                }
+                out.consumed += rem;
+                return (out, None);
+            }
+            ItOp::RestLast => {
+                let l = it.rest_last();
+                match l {
+                    Some(x) => {
+                        if rem == 0 {
+                            out.problems.push(("yield_after_none", format!("op {}: last() yielded an element of an exhausted iterator", i)));
+                        } else {
+                            positional!(i, &x, back - 1);
+                        }
+                        out.yielded.push((false, x));
+                        out.skipped.push(rem.saturating_sub(1));
+                    }
+                    None => {
+                        if rem > 0 {
+                            out.problems.push(("early_none", format!("op {}: last() returned None with {} elements remaining", i, rem)));
+                        }
+                    }
+                }
+                out.consumed += rem;
+                return (out, None);
+            }
         }
     }
-    out
+    (out, Some(it))
 }
 
 // ------------------------------------------------------------------------------------------
@@ -284,6 +420,7 @@ pub fn exec(q: &mut AnyQ, m: &mut Model, st: &Step, cx: &mut Ctx) {
     let tags = step_tags(st);
     cx.exact = 0;
     cx.loose = 0;
+    cx.late_write = false;
     match st {
         Step::Push { k, p, pl } => {
             let exp = m.prio(*k);
@@ -307,8 +444,25 @@ pub fn exec(q: &mut AnyQ, m: &mut Model, st: &Step, cx: &mut Ctx) {
                 (false, false) => "push_incdec_noop",
             });
             let key = Key::new(*k, *pl);
-            let pr = Prio::new(*p);
-            let r = if inc { q.push_increase(key, pr) } else { q.push_decrease(key, pr) }.map(|x| x.v);
+            // the offered priority carries a stamp outside Ord/Eq, so that "returns the offered
+            // priority and leaves the stored one untouched" is observable for equal offers
+            let pr = Prio::stamped(*p, *pl);
+            let stored0 = q.prio_stamp(&KeyId(*k));
+            let rr = if inc { q.push_increase(key, pr) } else { q.push_decrease(key, pr) };
+            let rstamp = rr.as_ref().map(|x| x.s);
+            let r = rr.map(|x| x.v);
+            let stored1 = q.prio_stamp(&KeyId(*k));
+            match (cur, changes) {
+                (Some(_), false) => {
+                    expect!(cx, C11, "push_incdec_untouched", stored1 == stored0, "push_{}({},{}) must leave the stored priority untouched (offer not strictly in its direction) but it changed from {:?} to {:?} (value, stamp)", if inc { "increase" } else { "decrease" }, k, p, stored0, stored1);
+                    expect!(cx, C11, "push_incdec_returns_offered", rstamp == Some(*pl), "push_{}({},{}) must return the offered priority itself; it returned one with stamp {:?}, the offered stamp is {}", if inc { "increase" } else { "decrease" }, k, p, rstamp, pl);
+                }
+                (Some(_), true) => {
+                    expect!(cx, C11, "push_incdec_returns_old", rstamp == stored0.map(|x| x.1), "push_{}({},{}) must return the previously stored priority (stamp {:?}), got stamp {:?}", if inc { "increase" } else { "decrease" }, k, p, stored0.map(|x| x.1), rstamp);
+                    expect!(cx, C11, "push_incdec_stores_offered", stored1 == Some((*p, *pl)), "push_{}({},{}) must store the offered priority, stored {:?}", if inc { "increase" } else { "decrease" }, k, p, stored1);
+                }
+                _ => {}
+            }
             cx.ret_opt_i32(r);
             expect!(cx, C03 | C11, "push_incdec_ret", r == exp, "push_{}({},{}) returned {:?}, expected {:?} (stored {:?})", if inc { "increase" } else { "decrease" }, k, p, r, exp, cur);
             if changes {
@@ -539,18 +693,20 @@ pub fn exec(q: &mut AnyQ, m: &mut Model, st: &Step, cx: &mut Ctx) {
             cx.ret(removed as u64);
             cx.order_suspended = false;
         }
-        Step::IterMut { prog, via, end, rule } => ep_iter_mut(q, m, prog, *via, *end, rule, cx),
+        Step::IterMut { prog, via, end, rule, late } => ep_iter_mut(q, m, prog, *via, *end, rule, *late, cx),
         Step::Drain { prog, end } => {
             let before = q.contents();
             let total = before.len();
             cx.saw_drain_or_clear = true;
+            // the iterator's own forward order, from a plain next() pass over an identical queue
+            let reference: Vec<u32> = both!(q.clone(), qq => { let mut qq = qq; qq.drain().map(|(k, _)| k.id()).collect() });
             let out = both!(q, qq => {
-                let mut it = Dbl(qq.drain());
-                let out = run_prog(&mut it, prog, total);
-                let remaining = total - out.yielded.len().min(total);
-                match end {
-                    GEnd::Drop => drop(it),
-                    GEnd::Forget => {
+                let (out, it) = run_prog(Dbl(qq.drain()), prog, total, Some(&reference), &|x: &(Key, Prio)| x.0.id(), &mut |_| {});
+                let remaining = total - out.consumed.min(total);
+                match (it, end) {
+                    (None, _) => {}
+                    (Some(it), GEnd::Drop) => drop(it),
+                    (Some(it), GEnd::Forget) => {
                         cx.expected_leak += 2 * remaining as u64;
                         std::mem::forget(it)
                     }
@@ -567,7 +723,7 @@ pub fn exec(q: &mut AnyQ, m: &mut Model, st: &Step, cx: &mut Ctx) {
             let ys: Vec<P3> = out.yielded.iter().map(|(_, (key, pr))| (key.id(), pr.v, key.payload)).collect();
             check_each_once(cx, C13 | C16, "drain", &before, &ys, false);
             cx.ret(ys.len() as u64);
-            cx.probe(match (end, ys.len() == total) {
+            cx.probe(match (end, out.consumed >= total) {
                 (GEnd::Drop, true) => "drain_full_drop",
                 (GEnd::Drop, false) => "drain_partial_drop",
                 (GEnd::Forget, true) => "drain_full_forget",
@@ -757,6 +913,16 @@ pub fn exec(q: &mut AnyQ, m: &mut Model, st: &Step, cx: &mut Ctx) {
             expect!(cx, C14, "clone_eq", cl.eq_q(q) && q.eq_q(&cl), "a clone does not compare equal to its source");
             *q = cl;
         }
+        Step::CloneFrom { dst } => {
+            let mut d = construct(kind, Ctor::WithHasher);
+            for (key, pr) in mkpairs(dst) {
+                d.push(key, pr);
+            }
+            d.clone_from_q(q);
+            expect!(cx, C14, "clone_from_eq", d.eq_q(q) && q.eq_q(&d), "after dst.clone_from(&src), dst != src");
+            expect!(cx, C14, "clone_from_len", d.len() == q.len() && d.is_empty() == q.is_empty(), "after dst.clone_from(&src) dst.len()={} but src.len()={}", d.len(), q.len());
+            *q = d;
+        }
         Step::Serde { switch } => {
             let s = q.to_json();
             let target = if *switch {
@@ -825,26 +991,23 @@ pub fn exec(q: &mut AnyQ, m: &mut Model, st: &Step, cx: &mut Ctx) {
             let before = q.contents();
             match q.clone() {
                 AnyQ::Pq(x) => {
-                    let mut it = Fwd(x.into_sorted_iter());
-                    let out = run_prog(&mut it, prog, before.len());
+                    let (out, _it) = run_prog(Fwd(x.into_sorted_iter()), prog, before.len(), None, &|x: &(Key, Prio)| x.0.id(), &mut |_| {});
                     for (cl, msg) in &out.problems {
                         cx.fail(C06 | C13, cl, format!("PriorityQueue::into_sorted_iter: {}", msg));
                     }
-                    let ys: Vec<(bool, P3)> = out.yielded.iter().map(|(b, (k, p))| (*b, (k.id(), p.v, k.payload))).collect();
+                    let ys: Vec<(bool, usize, P3)> = out.yielded.iter().zip(out.skipped.iter()).map(|((b, (k, p)), s)| (*b, *s, (k.id(), p.v, k.payload))).collect();
                     check_sorted_episode(cx, C06 | C01, &before, &ys, true);
                 }
                 AnyQ::Dpq(x) => {
-                    let mut it = Dbl(x.into_sorted_iter());
-                    let out = run_prog(&mut it, prog, before.len());
+                    let (out, _it) = run_prog(Dbl(x.into_sorted_iter()), prog, before.len(), None, &|x: &(Key, Prio)| x.0.id(), &mut |_| {});
                     for (cl, msg) in &out.problems {
                         let t = match *cl {
                             "size_hint" | "size_hint_bounds" => C13,
-                            "len" => C06 | C13,
                             _ => C06 | C13,
                         };
                         cx.fail(t, cl, format!("DoublePriorityQueue::into_sorted_iter: {}", msg));
                     }
-                    let ys: Vec<(bool, P3)> = out.yielded.iter().map(|(b, (k, p))| (*b, (k.id(), p.v, k.payload))).collect();
+                    let ys: Vec<(bool, usize, P3)> = out.yielded.iter().zip(out.skipped.iter()).map(|((b, (k, p)), s)| (*b, *s, (k.id(), p.v, k.payload))).collect();
                     check_sorted_episode(cx, C06 | C02, &before, &ys, false);
                 }
             }
@@ -932,14 +1095,32 @@ fn check_each_once(cx: &mut Ctx, tags: u32, what: &'static str, before: &[P3], y
 
 /// DPQ sorted iterator from both ends / PQ sorted iterator: each front yield is the minimum
 /// (PQ: maximum) of what remains, each back yield the maximum.
-fn check_sorted_episode(cx: &mut Ctx, tags: u32, before: &[P3], ys: &[(bool, P3)], pq: bool) {
+fn check_sorted_episode(cx: &mut Ctx, tags: u32, before: &[P3], ys: &[(bool, usize, P3)], pq: bool) {
     let mut rem: BTreeMap<i32, u32> = BTreeMap::new();
     let mut ids: BTreeMap<u32, i32> = BTreeMap::new();
     for b in before {
         *rem.entry(b.1).or_insert(0) += 1;
         ids.insert(b.0, b.1);
     }
-    for (i, (back, y)) in ys.iter().enumerate() {
+    fn take(rem: &mut BTreeMap<i32, u32>, p: i32) {
+        if let Some(n) = rem.get_mut(&p) {
+            *n -= 1;
+            if *n == 0 {
+                rem.remove(&p);
+            }
+        }
+    }
+    for (i, (back, skipped, y)) in ys.iter().enumerate() {
+        let from_max = pq || *back;
+        // elements consumed silently before this yield (nth / nth_back / last) are the extremes
+        // of what remained at that end; their identity is not observable, their count is
+        for _ in 0..*skipped {
+            let ext = if from_max { rem.keys().next_back().copied() } else { rem.keys().next().copied() };
+            // (which item it was is unknown, so `ids` only guards against yielding one twice)
+            if let Some(p) = ext {
+                take(&mut rem, p);
+            }
+        }
         match ids.remove(&y.0) {
             Some(p) if p == y.1 => {}
             other => {
@@ -947,26 +1128,39 @@ fn check_sorted_episode(cx: &mut Ctx, tags: u32, before: &[P3], ys: &[(bool, P3)
                 return;
             }
         }
-        let want = if pq || *back { rem.keys().next_back().copied() } else { rem.keys().next().copied() };
-        expect!(cx, tags, "sorted_ep_order", want == Some(y.1), "sorted iterator yield #{} from the {} has priority {}, the {} of what remains is {:?}", i, if *back { "back" } else { "front" }, y.1, if pq || *back { "maximum" } else { "minimum" }, want);
-        if let Some(n) = rem.get_mut(&y.1) {
-            *n -= 1;
-            if *n == 0 {
-                rem.remove(&y.1);
-            }
-        }
+        let want = if from_max { rem.keys().next_back().copied() } else { rem.keys().next().copied() };
+        expect!(cx, tags, "sorted_ep_order", want == Some(y.1), "sorted iterator yield #{} from the {} (after skipping {}) has priority {}, the {} of what remains is {:?}", i, if *back { "back" } else { "front" }, skipped, y.1, if from_max { "maximum" } else { "minimum" }, want);
+        take(&mut rem, y.1);
     }
 }
 
 // ------------------------------------------------------------------------------------------
 // episodes
 
-fn ep_iter_mut(q: &mut AnyQ, m: &mut Model, prog: &[ItOp], via: Via, end: GEnd, rule: &Rule, cx: &mut Ctx) {
+fn ep_iter_mut(q: &mut AnyQ, m: &mut Model, prog: &[ItOp], via: Via, end: GEnd, rule: &Rule, late: bool, cx: &mut Ctx) {
     let before = q.contents();
     let n = before.len();
-    // (yielded ids, rewrote some priority, aliasing detected)
-    fn drive<'a, P: ProgIt<T = (&'a mut Key, &'a mut Prio)>>(mut it: P, prog: &[ItOp], total: usize, end: GEnd, rule: &Rule, cx: &mut Ctx, exact: bool) -> (Vec<(u32, Option<i32>, Option<u32>)>, bool) {
-        let out = run_prog(&mut it, prog, total);
+    // returns (writes as (id, priority, payload), rewrote some priority)
+    fn drive<'a, P: ProgIt<T = (&'a mut Key, &'a mut Prio)>>(it: P, prog: &[ItOp], total: usize, end: GEnd, rule: &Rule, late: bool, cx: &mut Ctx, exact: bool, reference: &[u32]) -> (Vec<(u32, Option<i32>, Option<u32>)>, bool) {
+        let mut writes: Vec<(u32, Option<i32>, Option<u32>)> = Vec::new();
+        let mut rewrote = false;
+        // the client's loop body: runs at every yield, while the iterator is alive
+        let mut body = |x: &mut (&'a mut Key, &'a mut Prio)| {
+            let (k, p) = (&mut *x.0, &mut *x.1);
+            let np = rule.rewrite(k.id(), p.v);
+            let npl = rule.payload(k.id());
+            if let Some(v) = np {
+                if v != p.v {
+                    rewrote = true;
+                }
+                p.v = v;
+            }
+            if let Some(v) = npl {
+                k.payload = v;
+            }
+            writes.push((k.id(), np, npl));
+        };
+        let (out, it) = run_prog(it, prog, total, Some(reference), &|x: &(&'a mut Key, &'a mut Prio)| x.0.id(), &mut body);
         for (cl, msg) in &out.problems {
             match *cl {
                 "size_hint_bounds" => cx.fail(C09, cl, format!("iter_mut: {}", msg)),
@@ -992,42 +1186,64 @@ fn ep_iter_mut(q: &mut AnyQ, m: &mut Model, prog: &[ItOp], via: Via, end: GEnd, 
             alias = true;
             cx.fail(C09 | C08, "iter_mut_twice", "iter_mut yielded the same item twice".to_string());
         }
-        let mut writes = Vec::new();
-        let mut rewrote = false;
-        if !alias {
-            // write through every reference while all of them are alive
-            for (_, (k, p)) in out.yielded {
-                let np = rule.rewrite(k.id(), p.v);
-                let npl = rule.payload(k.id());
-                if let Some(v) = np {
-                    if v != p.v {
-                        rewrote = true;
+        let mut yielded = out.yielded;
+        match it {
+            Some(it) => {
+                if !alias {
+                    // every reference is still alive together with the iterator: touch them all
+                    // again (same values), so that an aliasing pair is a real conflict under Miri
+                    for (_, (k, p)) in yielded.iter_mut() {
+                        let v = p.v;
+                        p.v = v;
+                        let w = k.payload;
+                        k.payload = w;
                     }
-                    p.v = v;
                 }
-                if let Some(v) = npl {
-                    k.payload = v;
+                match end {
+                    GEnd::Drop => drop(it),
+                    GEnd::Forget => std::mem::forget(it),
                 }
-                writes.push((k.id(), np, npl));
             }
-        }
-        match end {
-            GEnd::Drop => drop(it),
-            GEnd::Forget => std::mem::forget(it),
+            None => {
+                // a terminal operation consumed (and dropped) the iterator. What last() returned
+                // could not be written earlier; a client that writes a priority through it now
+                // does so after the rebuild.
+                if late && !alias {
+                    if let Some((_, (k, p))) = yielded.last_mut() {
+                        let np = rule.tv.wrapping_add(1);
+                        if np != p.v {
+                            p.v = np;
+                            cx.late_write = true;
+                            let id = k.id();
+                            match writes.iter_mut().find(|w| w.0 == id) {
+                                Some(w) => w.1 = Some(np),
+                                None => writes.push((id, Some(np), None)),
+                            }
+                        }
+                    }
+                }
+            }
         }
         (writes, rewrote)
     }
+    // the iterator's own forward order, from a plain next() pass over an identical queue
+    let fwd: Vec<u32> = both!(&mut q.clone(), qq => qq.iter_mut().map(|(k, _)| k.id()).collect());
+    let reference: Vec<u32> = match via {
+        Via::Rev if q.kind() == Kind::Dpq => fwd.iter().rev().copied().collect(),
+        Via::Take(k) => fwd.iter().take(k).copied().collect(),
+        _ => fwd,
+    };
     let (writes, rewrote) = match q {
         AnyQ::Pq(pq) => match via {
-            Via::Take(k) => drive(Fwd(pq.iter_mut().take(k)), prog, n.min(k), end, rule, cx, false),
-            Via::RefMut => drive(Fwd((&mut *pq).into_iter()), prog, n, end, rule, cx, false),
-            _ => drive(Fwd(pq.iter_mut()), prog, n, end, rule, cx, false),
+            Via::Take(k) => drive(Fwd(pq.iter_mut().take(k)), prog, n.min(k), end, rule, late, cx, false, &reference),
+            Via::RefMut => drive(Fwd((&mut *pq).into_iter()), prog, n, end, rule, late, cx, false, &reference),
+            _ => drive(Fwd(pq.iter_mut()), prog, n, end, rule, late, cx, false, &reference),
         },
         AnyQ::Dpq(dq) => match via {
-            Via::Direct => drive(Dbl(dq.iter_mut()), prog, n, end, rule, cx, true),
-            Via::RefMut => drive(Dbl((&mut *dq).into_iter()), prog, n, end, rule, cx, true),
-            Via::Rev => drive(Dbl(dq.iter_mut().rev()), prog, n, end, rule, cx, true),
-            Via::Take(k) => drive(Dbl(dq.iter_mut().take(k)), prog, n.min(k), end, rule, cx, true),
+            Via::Direct => drive(Dbl(dq.iter_mut()), prog, n, end, rule, late, cx, true, &reference),
+            Via::RefMut => drive(Dbl((&mut *dq).into_iter()), prog, n, end, rule, late, cx, true, &reference),
+            Via::Rev => drive(Dbl(dq.iter_mut().rev()), prog, n, end, rule, late, cx, true, &reference),
+            Via::Take(k) => drive(Dbl(dq.iter_mut().take(k)), prog, n.min(k), end, rule, late, cx, true, &reference),
         },
     };
     for (id, np, npl) in &writes {
@@ -1060,21 +1276,23 @@ fn ep_iter(q: &mut AnyQ, _m: &mut Model, which: ItKind, prog: &[ItOp], cx: &mut 
     let n = before.len();
     let conv_ref = |x: &(bool, (&Key, &Prio))| (x.0, (x.1 .0.id(), x.1 .1.v, x.1 .0.payload));
     let conv_own = |x: &(bool, (Key, Prio))| (x.0, (x.1 .0.id(), x.1 .1.v, x.1 .0.payload));
+    let idr = |x: &(&Key, &Prio)| x.0.id();
+    let ido = |x: &(Key, Prio)| x.0.id();
     let (ys, problems, name): (Vec<(bool, P3)>, Vec<(&'static str, String)>, &'static str) = match which {
         ItKind::Iter => both!(q, qq => {
-            let mut it = Dbl(qq.iter());
-            let o = run_prog(&mut it, prog, n);
+            let reference: Vec<u32> = qq.iter().map(|(k, _)| k.id()).collect();
+            let (o, _) = run_prog(Dbl(qq.iter()), prog, n, Some(&reference), &idr, &mut |_| {});
             (o.yielded.iter().map(conv_ref).collect(), o.problems, "iter")
         }),
         ItKind::IntoIter => both!(q.clone(), qq => {
-            let mut it = Dbl(qq.into_iter());
-            let o = run_prog(&mut it, prog, n);
+            let reference: Vec<u32> = qq.clone().into_iter().map(|(k, _)| k.id()).collect();
+            let (o, _) = run_prog(Dbl(qq.into_iter()), prog, n, Some(&reference), &ido, &mut |_| {});
             (o.yielded.iter().map(conv_own).collect(), o.problems, "into_iter")
         }),
         ItKind::Drain => both!(q.clone(), qq => {
             let mut qq = qq;
-            let mut it = Dbl(qq.drain());
-            let o = run_prog(&mut it, prog, n);
+            let reference: Vec<u32> = qq.clone().drain().map(|(k, _)| k.id()).collect();
+            let (o, _) = run_prog(Dbl(qq.drain()), prog, n, Some(&reference), &ido, &mut |_| {});
             (o.yielded.iter().map(conv_own).collect(), o.problems, "drain")
         }),
         ItKind::Sorted => {
@@ -1084,13 +1302,11 @@ fn ep_iter(q: &mut AnyQ, _m: &mut Model, which: ItKind, prog: &[ItOp], cx: &mut 
             }
             match q.clone() {
                 AnyQ::Pq(x) => {
-                    let mut it = Fwd(x.into_sorted_iter());
-                    let o = run_prog(&mut it, prog, n);
+                    let (o, _) = run_prog(Fwd(x.into_sorted_iter()), prog, n, None, &ido, &mut |_| {});
                     (o.yielded.iter().map(conv_own).collect(), o.problems, "into_sorted_iter")
                 }
                 AnyQ::Dpq(x) => {
-                    let mut it = Dbl(x.into_sorted_iter());
-                    let o = run_prog(&mut it, prog, n);
+                    let (o, _) = run_prog(Dbl(x.into_sorted_iter()), prog, n, None, &ido, &mut |_| {});
                     (o.yielded.iter().map(conv_own).collect(), o.problems, "into_sorted_iter")
                 }
             }
@@ -1358,6 +1574,7 @@ pub fn post_check(q: &mut AnyQ, m: &Model, st: &Step, cx: &mut Ctx) {
     }
     // the extremes, judged against what the queue itself reports as stored
     let ord_tags = ot | op_only;
+    let fails_before_order = cx.fails.len();
     match kind {
         Kind::Pq => {
             let pk = q.peek(End::Max);
@@ -1372,6 +1589,20 @@ pub fn post_check(q: &mut AnyQ, m: &Model, st: &Step, cx: &mut Ctx) {
     }
     if cx.deep && !cx.fails.iter().any(|f| f.props & C04 != 0 && f.class.starts_with("tables")) {
         deep_order(q, &s, ord_tags | C06, cx);
+    }
+    if cx.late_write && cx.fails.len() > fails_before_order {
+        // the order is wrong because a priority was written through an iter_mut reference after
+        // the iterator had been dropped (and the heap rebuilt): one finding, one class
+        for f in cx.fails[fails_before_order..].iter_mut() {
+            f.class = "order_after_late_iter_mut_write";
+            f.props = C08;
+            f.msg = format!("a priority written through a reference yielded by iter_mut after the iterator was dropped (e.g. `iter_mut().last()`) is never followed by a rebuild: {}", f.msg);
+        }
+    }
+    if cx.late_write {
+        // from here on the order is unspecified until the next rebuild, whether or not the damage
+        // is already visible
+        cx.order_suspended = true;
     }
 }
 
